@@ -93,8 +93,11 @@ type Run struct {
 	Seed  uint64 `json:"seed"`
 	Index uint64 `json:"index"`
 	Build string `json:"build"` // plain | yield-entry | yield-full
-	NE    int    `json:"ne"`
-	NS    int    `json:"ns"`
+	// Procs is runtime.GOMAXPROCS of the process that executed the run (a
+	// per-worker knob); a replay sets it before the first library call.
+	Procs int `json:"gomaxprocs,omitempty"`
+	NE    int `json:"ne"`
+	NS    int `json:"ns"`
 	// Arena: byte backings (and shared variables) live in guarded memory.
 	Arena    bool      `json:"arena"`
 	Backings []Backing `json:"backings,omitempty"`
